@@ -13,6 +13,7 @@ EXPLANATION = (
     "successful write passes the rotation check whose true edge sends the rotation request; the handler of that request reaches blob "
     "replacement. L6: the wait-for graph has no armed cycle (same engine as C08.D1). Decides these liveness preconditions, not "
     "bounded-time completion.")
+EXPLANATION += (" " + 'L10 in a loop resumed with .skip(progress) the per-element fallible call is only reached with progress advanced, or .skip is not reachable again from its completion without the advance; L11 every non-None store into deferred_index_dump_info / update_last_time is followed (or preceded on every path) by update_deadline before the handler returns; L12 = C12.S10 for every background task.')
 ASSUMPTIONS = ["panics inside callee modules (expect on poisoned std locks etc.) are outside L1: only diverging calls written in storage/observer_worker.rs are armed"]
 
 WORKER_FILE = 'src/storage/observer_worker.rs'
@@ -514,14 +515,19 @@ def l10(ctx, rid):
                 if c.bb not in f.reach_from([start], avoid_exit=incs):
                     ctx.ok(rid, key, c.where(), '`%s` advanced before the element is processed' % f.debug_name(P))
                     continue
-                eb = core.err_edge(f, c)
-                back = [b for b in (eb or []) if sk.bb in f.reach_from([b], avoid_exit=incs)]
-                if eb and not back:
-                    ctx.ok(rid, key, c.where(), 'the failure edge cannot return to skip(%s) without advancing it' % f.debug_name(P))
+                cb = core.completion_block(f, c)
+                back = cb is None or sk.bb in f.reach_from([cb], avoid_exit=incs)
+                if not back:
+                    ctx.ok(rid, key, c.where(), 'after `%s` completed, `.skip(%s)` is only reached again with `%s` advanced' % (c.name, f.debug_name(P), f.debug_name(P)))
                 else:
                     ctx.bad(rid, key, c.where(), 'a failure of `%s` can lead back to `.skip(%s)` without `%s` having been advanced: a blob whose dump fails persistently is retried for ever - the background task never finishes, later requests are dropped as "already running", close() waits for it' % (c.name, f.debug_name(P), f.debug_name(P)))
     if n < 1:
         raise core.AnchorLost('resumable loop with a fallible per-element call: %d' % n)
+
+
+def l12(ctx, rid):
+    import props.c12 as c12
+    c12.s10(ctx, rid, only_sync=False)
 
 
 RULES = [
@@ -534,5 +540,6 @@ RULES = [
     Rule('C13.L9', 'requests to the worker are sent with the waiting send (never dropped when the queue is full)', l9, 1),
     Rule('C13.L11', 'every registration / refresh of the deferred index-dump event arms the worker deadline before the handler returns', l11, 3),
     Rule('C13.L10', 'a resumable maintenance loop advances its progress counter past an element whose processing failed', l10, 1),
+    Rule('C13.L12', 'the worker skips starting a background task only while one is really running (decided by JoinHandle::is_finished)', l12, 2),
     Rule('C13.L8', 'request-pending / in-progress flags are released on every path of their handler (C12.S8 instances)', l8, 1),
 ]
